@@ -327,7 +327,7 @@ impl Sim {
                         }
                     }
                 }
-                if d.tick % PERIOD != 0 {
+                if d.raw_tick % PERIOD != 0 {
                     for (e, _) in &d.entities {
                         self.clients[ci].offperiod.entry(*e).or_default().push(self.frame_no);
                     }
@@ -406,7 +406,8 @@ impl Sim {
         let ever_explicit = &self.ever_explicit;
         let explicit = |e: &Entity| ever_explicit.contains(&(ci, *e));
         let c = &mut self.clients[ci];
-        let u = c.app.world().resource::<ServerUpdateTick>().get();
+        let u_raw = c.app.world().resource::<ServerUpdateTick>().get();
+        let u = wire::rel(u_raw);
         if u < c.last_update_tick {
             errs.push((vec!["C03"], format!("client{ci}: update tick went back {} -> {u}", c.last_update_tick)));
         }
@@ -414,6 +415,7 @@ impl Sim {
             self.obs.inc("update_tick_advances");
         }
         c.last_update_tick = u;
+        c.last_update_raw = u_raw;
         let map = c.app.world().resource::<ServerEntityMap>();
         let to_client: BTreeMap<Entity, Entity> = map.to_client().iter().map(|(a, b)| (*a, *b)).collect();
         let to_server: BTreeMap<Entity, Entity> = map.to_server().iter().map(|(a, b)| (*a, *b)).collect();
@@ -543,7 +545,7 @@ impl Sim {
         for (s, ce) in &to_client {
             let Ok(cw) = c.app.world().get_entity(*ce) else { continue };
             let Some(h) = cw.get::<ConfirmHistory>() else { continue };
-            let ht = h.last_tick().get();
+            let ht = wire::rel(h.last_tick().get());
             new_hist.insert(*s, ht);
             if let Some(&prev) = c.last_hist.get(s) {
                 if ht < prev {
@@ -589,7 +591,7 @@ impl Sim {
 
         // C12 end to end
         if self.cfg.track {
-            let fired: Vec<u32> = std::mem::take(&mut c.app.world_mut().resource_mut::<Log>().mutate_ticks);
+            let fired: Vec<u32> = std::mem::take(&mut c.app.world_mut().resource_mut::<Log>().mutate_ticks).into_iter().map(wire::rel).collect();
             for t in fired {
                 self.obs.inc("mutate_tick_events");
                 if !c.fired.insert(t) {
@@ -611,13 +613,13 @@ impl Sim {
                         ));
                     }
                 }
-                if !c.app.world().resource::<ServerMutateTicks>().contains(RepliconTick::new(t)) {
+                if !c.app.world().resource::<ServerMutateTicks>().contains(RepliconTick::new(wire::raw(t))) {
                     errs.push((vec!["C12"], format!("client{ci}: tick {t} reported as received but ServerMutateTicks::contains says no")));
                 }
             }
             // ... and the notification does fire once every message of a tick has been applied (unless
             // the tick had already left the 64-tick window when its last message was processed)
-            let last = c.app.world().resource::<ServerMutateTicks>().last_tick().get();
+            let last = wire::rel(c.app.world().resource::<ServerMutateTicks>().last_tick().get());
             // newest tick of which the client has processed at least one message
             let newest = c
                 .delivered_per_tick
@@ -649,7 +651,7 @@ impl Sim {
         } else {
             c.app.world_mut().resource_mut::<Log>().mutate_ticks.clear();
         }
-        let repl: Vec<(Entity, u32)> = std::mem::take(&mut c.app.world_mut().resource_mut::<Log>().replicated);
+        let repl: Vec<(Entity, u32)> = std::mem::take(&mut c.app.world_mut().resource_mut::<Log>().replicated).into_iter().map(|(e, t)| (e, wire::rel(t))).collect();
         self.obs.add("entity_replicated_events", repl.len() as u64);
         for (props, msg) in errs {
             self.viol(&props, msg);
@@ -925,7 +927,8 @@ impl Sim {
         let recs = std::mem::take(&mut self.clients[i].app.world_mut().resource_mut::<Log>().recs);
         let sess = self.clients[i].session;
         let connected = self.clients[i].ent.is_some();
-        for r in recs {
+        for mut r in recs {
+            r.utick = wire::rel(r.utick);
             if let Some(sender) = r.sender {
                 // FromClient observed inside a client app: only legal as local re-emission (sender =
                 // SERVER) of an event that was never handed to the transport. Triggers are observed
@@ -1023,6 +1026,11 @@ impl Sim {
                     if want.is_some() && got != want {
                         self.viol(&["C05"], format!("client{i} {} seq {}: target {got:?} but the map says {want:?}", r.kind, r.seq));
                     }
+                } else if got.is_some_and(|g| self.clients[i].app.world().get_entity(g).is_err()) {
+                    self.viol(
+                        &["C04"],
+                        format!("client{i} {} seq {}: delivered with a reference to {got:?}, which does not exist on the client (server entity {:?})", r.kind, r.seq, s.server_ent),
+                    );
                 } else if got != want || want.is_none() {
                     self.viol(
                         &["C04"],
